@@ -90,13 +90,13 @@ def ob_find_re(pat, maxlen, timeout):
 
 # ---------------------------------------------------------------------- getNonEntries
 def ob_nonentries(k, timeout):
-    names = ["hi"] + _ts(k)
+    names = ["lo", "hi"] + _ts(k)
 
-    def pre(hi, *ts):
-        return ivs_wf_pre(0.0, hi, *ts) & finite(hi)
+    def pre(lo, hi, *ts):
+        return ivs_wf_pre(lo, hi, *ts) & finite(hi) & (0.0 <= lo)
 
-    def body(hi, *ts):
-        tier = IntervalTier("t", mk_ivs(ts), 0.0, hi)
+    def body(lo, hi, *ts):
+        tier = IntervalTier("t", mk_ivs(ts), lo, hi)  # the tier's own span may start after 0
         ne = tuples(tier.getNonEntries())
         for (s, e, l) in ne:
             if not s < e:
